@@ -45,204 +45,211 @@ def run(eng, R):
     check(eng, R, "H-conv", MG, "_calculate_cov_mat_from_cov_rel", "return", "CovMat(cov_mat_rel * outer(reference, reference))", known=["cov_mat_rel", "reference", "()abs"], what="covariance = relative covariance x outer(reference, reference)")
 
     # ---- inverse pairs (x * r) / r == x
-    pairs = [
-        ("simple constraint abs/rel", "(U * V) / V", "U"),
-        ("matrix constraint cov/rel", "(C * outer(V, V)) / outer(V, V)", "C"),
-        ("matrix constraint cor/cov", "(K * outer(S, S)) / outer(S, S)", "K"),
-        ("matrix error cov/rel", "(C / outer(R, R)) * outer(R, R)", "C"),
-        ("simple error abs/rel", "(E / abs(R)) * abs(R)", "E"),
-    ]
-    for name, expr, want in pairs:
-        got = norm_spec(expr).canon()
-        R.ob("H-inv", name, got == want, ("kafe2/core", 0), "composition of the two conversions normalises to %s, expected %s" % (got, want))
+    with R.guard("inverse pairs (x * r) / r == x"):
+        pairs = [
+            ("simple constraint abs/rel", "(U * V) / V", "U"),
+            ("matrix constraint cov/rel", "(C * outer(V, V)) / outer(V, V)", "C"),
+            ("matrix constraint cor/cov", "(K * outer(S, S)) / outer(S, S)", "K"),
+            ("matrix error cov/rel", "(C / outer(R, R)) * outer(R, R)", "C"),
+            ("simple error abs/rel", "(E / abs(R)) * abs(R)", "E"),
+        ]
+        for name, expr, want in pairs:
+            got = norm_spec(expr).canon()
+            R.ob("H-inv", name, got == want, ("kafe2/core", 0), "composition of the two conversions normalises to %s, expected %s" % (got, want))
 
     # ---- reference transform of simple errors
-    SG = "SimpleGaussianError"
-    check(eng, R, "S-abs", SG, "error", "assign", "self._err_rel * abs(self.reference)", target="self._err", what="absolute error of a relative source = relative error x |reference|", known=KS)
-    check(eng, R, "S-abs", SG, "error_rel", "assign", "self._err / abs(self.reference)", target="self._err_rel", what="relative error of an absolute source = error / |reference|", known=KS)
-    check(eng, R, "S-abs", SG, "error.fset", "assign", "err_val / abs(self.reference)", target="self._err_rel", when="=(self.relative)", what="setting absolute values on a relative source divides by |reference|", not_none=True, known=KS)
-    check(eng, R, "S-abs", SG, "error_rel.fset", "assign", "err_val * abs(self.reference)", target="self._err", when="=not (self.relative)", what="setting relative values on an absolute source multiplies by |reference|", known=KS)
-    from .formulas import extract
+    with R.guard("reference transform of simple errors"):
+        SG = "SimpleGaussianError"
+        check(eng, R, "S-abs", SG, "error", "assign", "self._err_rel * abs(self.reference)", target="self._err", what="absolute error of a relative source = relative error x |reference|", known=KS)
+        check(eng, R, "S-abs", SG, "error_rel", "assign", "self._err / abs(self.reference)", target="self._err_rel", what="relative error of an absolute source = error / |reference|", known=KS)
+        check(eng, R, "S-abs", SG, "error.fset", "assign", "err_val / abs(self.reference)", target="self._err_rel", when="=(self.relative)", what="setting absolute values on a relative source divides by |reference|", not_none=True, known=KS)
+        check(eng, R, "S-abs", SG, "error_rel.fset", "assign", "err_val * abs(self.reference)", target="self._err", when="=not (self.relative)", what="setting relative values on an absolute source multiplies by |reference|", known=KS)
+        from .formulas import extract
 
-    fcm = get_func(p, SG, "_calculate_cov_mat")
-    KC = KS + ["self._corr_coeff", "()diag", "()outer", "()zeros_like", "self.error_rel", "self.error", "self.reference"]
-    got = sorted({x.canon() for _, x, _ in extract(fcm, "store", "self._cov_mat_cor_part", ["(self.relative)", "(self._corr_coeff > 0)"], node=eng.cnode(fcm))})
-    if got == ["self._corr_coeff*outer(self.error,self.error)"]:
-        R.ob("S-abs", "%s._calculate_cov_mat:_abs_err:=(self.relative)" % SG, False, (fcm.file, fcm.lineno),
-             "the covariance of a relative source is built from `self.error`, i.e. relative size x |reference| (rule S-abs on the error getter): the sign of the "
-             "reference is lost, so the correlated part differs from the explicit matrix form (sigma sigma^T) o rho for references of mixed sign")
-    else:
-        check(eng, R, "S-abs", SG, "_calculate_cov_mat", "store", "outer(self.error_rel * self.reference, self.error_rel * self.reference) * self._corr_coeff", target="self._cov_mat_cor_part",
-              when=["(self.relative)", "(self._corr_coeff > 0)"], known=KC,
-              what="the covariance of a relative source is built from relative size x signed reference values (the sign carries into the correlated part)")
+        fcm = get_func(p, SG, "_calculate_cov_mat")
+        KC = KS + ["self._corr_coeff", "()diag", "()outer", "()zeros_like", "self.error_rel", "self.error", "self.reference"]
+        got = sorted({x.canon() for _, x, _ in extract(fcm, "store", "self._cov_mat_cor_part", ["(self.relative)", "(self._corr_coeff > 0)"], node=eng.cnode(fcm))})
+        if got == ["self._corr_coeff*outer(self.error,self.error)"]:
+            R.ob("S-abs", "%s._calculate_cov_mat:_abs_err:=(self.relative)" % SG, False, (fcm.file, fcm.lineno),
+                 "the covariance of a relative source is built from `self.error`, i.e. relative size x |reference| (rule S-abs on the error getter): the sign of the "
+                 "reference is lost, so the correlated part differs from the explicit matrix form (sigma sigma^T) o rho for references of mixed sign")
+        else:
+            check(eng, R, "S-abs", SG, "_calculate_cov_mat", "store", "outer(self.error_rel * self.reference, self.error_rel * self.reference) * self._corr_coeff", target="self._cov_mat_cor_part",
+                  when=["(self.relative)", "(self._corr_coeff > 0)"], known=KC,
+                  what="the covariance of a relative source is built from relative size x signed reference values (the sign carries into the correlated part)")
 
     # ---- scalar broadcast
-    for cname, fname in (("DataContainerBase", "add_error"), ("XYContainer", "add_error"), ("MultiFit", "add_error")):
-        f = get_func(p, cname, fname)
-        ok = False
-        for n in ast.walk(f.node):
-            if isinstance(n, ast.If) and "err_val.ndim == 0" in " ".join(ast.unparse(n.test).split()):
-                body = common.src_of(ast.Module(body=n.body, type_ignores=[]))
-                ok = ok or ("err_val = np.ones(" in body and "* err_val" in body and ("self.size" in body or "data_size" in body))
-        R.ob("S-bcast", "%s.%s" % (cname, fname), ok, (f.file, f.lineno), "%s.%s does not broadcast a scalar uncertainty to a constant vector of the data size" % (cname, fname))
+    with R.guard("scalar broadcast"):
+        for cname, fname in (("DataContainerBase", "add_error"), ("XYContainer", "add_error"), ("MultiFit", "add_error")):
+            f = get_func(p, cname, fname)
+            ok = False
+            for n in ast.walk(f.node):
+                if isinstance(n, ast.If) and "err_val.ndim == 0" in " ".join(ast.unparse(n.test).split()):
+                    body = common.src_of(ast.Module(body=n.body, type_ignores=[]))
+                    ok = ok or ("err_val = np.ones(" in body and "* err_val" in body and ("self.size" in body or "data_size" in body))
+            R.ob("S-bcast", "%s.%s" % (cname, fname), ok, (f.file, f.lineno), "%s.%s does not broadcast a scalar uncertainty to a constant vector of the data size" % (cname, fname))
 
     # ---- wrapper keywords
-    wm = p.module("kafe2.fit.util.wrapper")
-    n_calls = 0
-    for fn in ("hist_fit", "indexed_fit", "xy_fit"):
-        f = wm.functions.get(fn)
-        if f is None:
-            raise AnalysisError("wrapper %s not found" % fn)
-        for c in ast.walk(f.node):
-            if isinstance(c, ast.Call) and isinstance(c.func, ast.Name) and c.func.id.startswith("_add_error_to_fit"):
-                args = list(c.args)
-                kws = {k.arg: k.value for k in c.keywords}
-                if fn == "xy_fit":
-                    axis, err = (common.const_str(args[0]) if args else None), (args[1] if len(args) > 1 else None)
-                else:
-                    axis, err = None, (args[1] if len(args) > 1 else None)
-                if not isinstance(err, ast.Name):
-                    continue
-                n_calls += 1
-                nm = err.id
-                want_cor, want_rel = "_cor" in nm, nm.endswith("_rel")
-                # by keyword, or by position in the helper's own signature
-                callee = wm.functions.get(c.func.id)
-                callee_node = callee.node if callee is not None else next((d for d in ast.walk(f.node) if isinstance(d, ast.FunctionDef) and d.name == c.func.id), None)
-                params = [a.arg for a in callee_node.args.args] if callee_node is not None else []
-                for nm_ in ("correlated", "relative"):
-                    if nm_ not in kws and nm_ in params and len(args) > params.index(nm_):
-                        kws[nm_] = args[params.index(nm_)]
-                got_cor = isinstance(kws.get("correlated"), ast.Constant) and kws["correlated"].value is True
-                got_rel = isinstance(kws.get("relative"), ast.Constant) and kws["relative"].value is True
-                ok = want_cor == got_cor and want_rel == got_rel
-                if fn == "xy_fit":
-                    ok = ok and axis == nm[0] and nm[1] == "_"
-                R.ob("S-wrap", "%s:%s" % (fn, nm), ok, (f.file, c.lineno), "%s forwards `%s` with axis=%s correlated=%s relative=%s" % (fn, nm, axis, got_cor, got_rel))
-    xf = wm.functions["xy_fit"]
-    xy_helper = next((d for d in ast.walk(xf.node) if isinstance(d, ast.FunctionDef) and d.name == "_add_error_to_fit"), None)
-    if xy_helper is None:
-        raise AnalysisError("xy_fit: nested helper _add_error_to_fit not found")
-    for label, fn_, recv, off, where_ in (("_add_error_to_fit_generic", eng.cnode(wm.functions.get("_add_error_to_fit_generic")), "fit", 0, wm.functions.get("_add_error_to_fit_generic")),
-                                           ("xy_fit._add_error_to_fit", xy_helper, "_fit", 1, xf)):
-        calls = [c for c in ast.walk(fn_) if isinstance(c, ast.Call) and isinstance(c.func, ast.Attribute) and c.func.attr in ("add_error", "add_matrix_error")
-                 and isinstance(c.func.value, ast.Name) and c.func.value.id == recv]
+    with R.guard("wrapper keywords"):
+        wm = p.module("kafe2.fit.util.wrapper")
+        n_calls = 0
+        for fn in ("hist_fit", "indexed_fit", "xy_fit"):
+            f = wm.functions.get(fn)
+            if f is None:
+                raise AnalysisError("wrapper %s not found" % fn)
+            for c in ast.walk(f.node):
+                if isinstance(c, ast.Call) and isinstance(c.func, ast.Name) and c.func.id.startswith("_add_error_to_fit"):
+                    args = list(c.args)
+                    kws = {k.arg: k.value for k in c.keywords}
+                    if fn == "xy_fit":
+                        axis, err = (common.const_str(args[0]) if args else None), (args[1] if len(args) > 1 else None)
+                    else:
+                        axis, err = None, (args[1] if len(args) > 1 else None)
+                    if not isinstance(err, ast.Name):
+                        continue
+                    n_calls += 1
+                    nm = err.id
+                    want_cor, want_rel = "_cor" in nm, nm.endswith("_rel")
+                    # by keyword, or by position in the helper's own signature
+                    callee = wm.functions.get(c.func.id)
+                    callee_node = callee.node if callee is not None else next((d for d in ast.walk(f.node) if isinstance(d, ast.FunctionDef) and d.name == c.func.id), None)
+                    params = [a.arg for a in callee_node.args.args] if callee_node is not None else []
+                    for nm_ in ("correlated", "relative"):
+                        if nm_ not in kws and nm_ in params and len(args) > params.index(nm_):
+                            kws[nm_] = args[params.index(nm_)]
+                    got_cor = isinstance(kws.get("correlated"), ast.Constant) and kws["correlated"].value is True
+                    got_rel = isinstance(kws.get("relative"), ast.Constant) and kws["relative"].value is True
+                    ok = want_cor == got_cor and want_rel == got_rel
+                    if fn == "xy_fit":
+                        ok = ok and axis == nm[0] and nm[1] == "_"
+                    R.ob("S-wrap", "%s:%s" % (fn, nm), ok, (f.file, c.lineno), "%s forwards `%s` with axis=%s correlated=%s relative=%s" % (fn, nm, axis, got_cor, got_rel))
+        xf = wm.functions["xy_fit"]
+        xy_helper = next((d for d in ast.walk(xf.node) if isinstance(d, ast.FunctionDef) and d.name == "_add_error_to_fit"), None)
+        if xy_helper is None:
+            raise AnalysisError("xy_fit: nested helper _add_error_to_fit not found")
+        for label, fn_, recv, off, where_ in (("_add_error_to_fit_generic", eng.cnode(wm.functions.get("_add_error_to_fit_generic")), "fit", 0, wm.functions.get("_add_error_to_fit_generic")),
+                                               ("xy_fit._add_error_to_fit", xy_helper, "_fit", 1, xf)):
+            calls = [c for c in ast.walk(fn_) if isinstance(c, ast.Call) and isinstance(c.func, ast.Attribute) and c.func.attr in ("add_error", "add_matrix_error")
+                     and isinstance(c.func.value, ast.Name) and c.func.value.id == recv]
 
-        def lits(c, fn_=fn_):
-            from .formulas import canon_cond_text
-            return canon_cond_text(common.guard_conditions(fn_, c, flat=True))
+            def lits(c, fn_=fn_):
+                from .formulas import canon_cond_text
+                return canon_cond_text(common.guard_conditions(fn_, c, flat=True))
 
-        def tx(e):
-            return " ".join(ast.unparse(e).split()) if e is not None else None
+            def tx(e):
+                return " ".join(ast.unparse(e).split()) if e is not None else None
 
-        cor = [c for c in calls if c.func.attr == "add_error" and common.kwarg(c, "correlation") is not None]
-        mat = [c for c in calls if c.func.attr == "add_matrix_error"]
-        plain = [c for c in calls if c.func.attr == "add_error" and common.kwarg(c, "correlation") is None]
-        ok = len(cor) == 1 and len(mat) == 1 and len(plain) == 1
-        if ok:
-            c1, c2, c3 = cor[0], mat[0], plain[0]
-            loops = [n for n in ast.walk(fn_) if isinstance(n, ast.For) and any(x is c1 for x in ast.walk(n))]
-            arr = tx(common.kwarg(c2, "err_matrix", off))
-            ok = tx(common.kwarg(c1, "correlation")) == "1.0" and "(correlated)" in lits(c1) and len(loops) == 1 and isinstance(loops[0].target, ast.Name) \
-                and tx(common.kwarg(c1, "err_val", off)) == loops[0].target.id and tx(loops[0].iter) == arr \
-                and "not (correlated)" in lits(c2) and "(%s.ndim == 2)" % arr in lits(c2) and tx(common.kwarg(c2, "matrix_type", off + 1)) == "'cov'" \
-                and "not (correlated)" in lits(c3) and "not (%s.ndim == 2)" % arr in lits(c3) and tx(common.kwarg(c3, "err_val", off)) == arr \
-                and all(tx(common.kwarg(c, "relative")) == "relative" for c in (c1, c2, c3)) \
-                and len({tx(common.kwarg(c, "reference")) for c in (c1, c2, c3)}) == 1 and common.kwarg(c1, "reference") is not None \
-                and (off == 0 or all(tx(common.kwarg(c, "axis", 0)) == "axis" for c in (c1, c2, c3)))
-        R.ob("S-wrap", label, ok, (where_.file, where_.lineno),
-             "the helper must forward correlated errors as fully correlated simple errors, 2-d arrays as covariance matrices, else simple errors - each with the relative flag, the reference "
-             "(and the axis for xy fits)")
+            cor = [c for c in calls if c.func.attr == "add_error" and common.kwarg(c, "correlation") is not None]
+            mat = [c for c in calls if c.func.attr == "add_matrix_error"]
+            plain = [c for c in calls if c.func.attr == "add_error" and common.kwarg(c, "correlation") is None]
+            ok = len(cor) == 1 and len(mat) == 1 and len(plain) == 1
+            if ok:
+                c1, c2, c3 = cor[0], mat[0], plain[0]
+                loops = [n for n in ast.walk(fn_) if isinstance(n, ast.For) and any(x is c1 for x in ast.walk(n))]
+                arr = tx(common.kwarg(c2, "err_matrix", off))
+                ok = tx(common.kwarg(c1, "correlation")) == "1.0" and "(correlated)" in lits(c1) and len(loops) == 1 and isinstance(loops[0].target, ast.Name) \
+                    and tx(common.kwarg(c1, "err_val", off)) == loops[0].target.id and tx(loops[0].iter) == arr \
+                    and "not (correlated)" in lits(c2) and "(%s.ndim == 2)" % arr in lits(c2) and tx(common.kwarg(c2, "matrix_type", off + 1)) == "'cov'" \
+                    and "not (correlated)" in lits(c3) and "not (%s.ndim == 2)" % arr in lits(c3) and tx(common.kwarg(c3, "err_val", off)) == arr \
+                    and all(tx(common.kwarg(c, "relative")) == "relative" for c in (c1, c2, c3)) \
+                    and len({tx(common.kwarg(c, "reference")) for c in (c1, c2, c3)}) == 1 and common.kwarg(c1, "reference") is not None \
+                    and (off == 0 or all(tx(common.kwarg(c, "axis", 0)) == "axis" for c in (c1, c2, c3)))
+            R.ob("S-wrap", label, ok, (where_.file, where_.lineno),
+                 "the helper must forward correlated errors as fully correlated simple errors, 2-d arrays as covariance matrices, else simple errors - each with the relative flag, the reference "
+                 "(and the axis for xy fits)")
 
     # ---- wrapper configuration order: values given with `fixed` survive (the bulk start-value setter writes every parameter, fixed ones included)
-    R.rule("S-order", "the generic wrapper sets the start values before it fixes parameters (fix_parameter(name, value) sets the value; a later set_all_parameter_values overwrites it), "
-                      "and runs the fit only after all configuration calls", 2)
-    fw = wm.functions.get("_fit_wrapper_generic")
-    if fw is None:
-        raise AnalysisError("wrapper _fit_wrapper_generic not found")
-    g = eng.cfg(fw)
+    with R.guard("wrapper configuration order: values given with `fixed` survi"):
+        R.rule("S-order", "the generic wrapper sets the start values before it fixes parameters (fix_parameter(name, value) sets the value; a later set_all_parameter_values overwrites it), "
+                          "and runs the fit only after all configuration calls", 2)
+        fw = wm.functions.get("_fit_wrapper_generic")
+        if fw is None:
+            raise AnalysisError("wrapper _fit_wrapper_generic not found")
+        g = eng.cfg(fw)
 
-    def calls(n, names):
-        for part in n.ast_parts():
-            for c in ast.walk(part):
-                if isinstance(c, ast.Call) and isinstance(c.func, ast.Attribute) and c.func.attr in names and isinstance(c.func.value, ast.Name) and c.func.value.id == "fit":
-                    return True
-        return False
+        def calls(n, names):
+            for part in n.ast_parts():
+                for c in ast.walk(part):
+                    if isinstance(c, ast.Call) and isinstance(c.func, ast.Attribute) and c.func.attr in names and isinstance(c.func.value, ast.Name) and c.func.value.id == "fit":
+                        return True
+            return False
 
-    fixes = [n for n in g.nodes if calls(n, {"fix_parameter"})]
-    bulk = [n for n in g.nodes if calls(n, {"set_all_parameter_values", "set_parameter_values"})]
-    fits = [n for n in g.nodes if calls(n, {"do_fit"})]
-    if not fixes or not bulk or not fits:
-        raise AnalysisError("_fit_wrapper_generic: fix / start value / do_fit calls not found")
-    bad = [1 for a in fixes for b in bulk if g.find_path(a.id, lambda m, b=b: m.id == b.id, exceptional=False)]
-    R.ob("S-order", "_fit_wrapper_generic:start values before fixing", not bad, (fw.file, fw.lineno),
-         "the start values are written after parameters were fixed: a value given with `fixed=(name, value)` is overwritten by p0 and the wrapper fits a different problem than the explicit calls")
-    cfgcalls = [n for n in g.nodes if calls(n, {"fix_parameter", "limit_parameter", "add_parameter_constraint", "set_all_parameter_values"}) or any(
-        isinstance(st, ast.Assign) and any(isinstance(t, ast.Attribute) and t.attr == "parameter_errors" for t in st.targets) for st in [n.stmt] if st is not None)]
-    bad = [1 for a in fits for b in cfgcalls if g.find_path(a.id, lambda m, b=b: m.id == b.id, exceptional=False)]
-    R.ob("S-order", "_fit_wrapper_generic:fit last", not bad and len(cfgcalls) >= 4, (fw.file, fw.lineno), "a configuration call can follow do_fit: the returned results belong to a different configuration")
+        fixes = [n for n in g.nodes if calls(n, {"fix_parameter"})]
+        bulk = [n for n in g.nodes if calls(n, {"set_all_parameter_values", "set_parameter_values"})]
+        fits = [n for n in g.nodes if calls(n, {"do_fit"})]
+        if not fixes or not bulk or not fits:
+            raise AnalysisError("_fit_wrapper_generic: fix / start value / do_fit calls not found")
+        bad = [1 for a in fixes for b in bulk if g.find_path(a.id, lambda m, b=b: m.id == b.id, exceptional=False)]
+        R.ob("S-order", "_fit_wrapper_generic:start values before fixing", not bad, (fw.file, fw.lineno),
+             "the start values are written after parameters were fixed: a value given with `fixed=(name, value)` is overwritten by p0 and the wrapper fits a different problem than the explicit calls")
+        cfgcalls = [n for n in g.nodes if calls(n, {"fix_parameter", "limit_parameter", "add_parameter_constraint", "set_all_parameter_values"}) or any(
+            isinstance(st, ast.Assign) and any(isinstance(t, ast.Attribute) and t.attr == "parameter_errors" for t in st.targets) for st in [n.stmt] if st is not None)]
+        bad = [1 for a in fits for b in cfgcalls if g.find_path(a.id, lambda m, b=b: m.id == b.id, exceptional=False)]
+        R.ob("S-order", "_fit_wrapper_generic:fit last", not bad and len(cfgcalls) >= 4, (fw.file, fw.lineno), "a configuration call can follow do_fit: the returned results belong to a different configuration")
 
     # ---- every constraint given to a wrapper reaches the fit: the loop runs over the sequence of specifications itself, not over a mapping keyed by parameter name
-    def iter_source(loop):
-        """'sequence' if the loop runs over the wrapper argument (possibly wrapped into a tuple), 'mapping' if it runs over the items of a mapping, else None"""
-        it = loop.iter
-        if isinstance(it, ast.Call) and isinstance(it.func, ast.Attribute) and it.func.attr in ("items", "keys", "values"):
-            return "mapping"
-        if isinstance(it, ast.Name) and it.id in ("constraints", "limits", "fixed"):
-            return "sequence"
-        if isinstance(it, ast.Call) and isinstance(it.func, ast.Name) and it.func.id in wm.functions:
-            h = wm.functions[it.func.id]
-            rets = [r.value for r in ast.walk(h.node) if isinstance(r, ast.Return) and r.value is not None]
-            if any(isinstance(r, (ast.Dict, ast.DictComp)) or (isinstance(r, ast.Call) and isinstance(r.func, ast.Name) and r.func.id in ("dict", "OrderedDict")) for r in rets):
+    with R.guard("every constraint given to a wrapper reaches the fit: the loo"):
+        def iter_source(loop):
+            """'sequence' if the loop runs over the wrapper argument (possibly wrapped into a tuple), 'mapping' if it runs over the items of a mapping, else None"""
+            it = loop.iter
+            if isinstance(it, ast.Call) and isinstance(it.func, ast.Attribute) and it.func.attr in ("items", "keys", "values"):
                 return "mapping"
-            if rets and all(isinstance(r, (ast.Tuple, ast.List, ast.Name, ast.ListComp)) for r in rets):
+            if isinstance(it, ast.Name) and it.id in ("constraints", "limits", "fixed"):
                 return "sequence"
-        return None
+            if isinstance(it, ast.Call) and isinstance(it.func, ast.Name) and it.func.id in wm.functions:
+                h = wm.functions[it.func.id]
+                rets = [r.value for r in ast.walk(h.node) if isinstance(r, ast.Return) and r.value is not None]
+                if any(isinstance(r, (ast.Dict, ast.DictComp)) or (isinstance(r, ast.Call) and isinstance(r.func, ast.Name) and r.func.id in ("dict", "OrderedDict")) for r in rets):
+                    return "mapping"
+                if rets and all(isinstance(r, (ast.Tuple, ast.List, ast.Name, ast.ListComp)) for r in rets):
+                    return "sequence"
+            return None
 
-    for callee, arg in (("add_parameter_constraint", "constraints"),):
-        loops = [l for l in ast.walk(fw.node) if isinstance(l, ast.For) and any(
-            isinstance(c, ast.Call) and isinstance(c.func, ast.Attribute) and c.func.attr == callee for st in l.body for c in ast.walk(st))]
-        if len(loops) != 1:
-            raise AnalysisError("_fit_wrapper_generic: loop forwarding %s not found" % arg)
-        src_kind = iter_source(loops[0])
-        if src_kind is None:
-            raise AnalysisError("_fit_wrapper_generic: what the %s loop iterates over is not understood (%s)" % (arg, ast.unparse(loops[0].iter)))
-        R.ob("S-order", "_fit_wrapper_generic:every constraint forwarded", src_kind == "sequence", (fw.file, loops[0].lineno),
-             "the wrapper runs over a mapping keyed by parameter name: of several constraints on the same parameter only the last reaches the fit, while explicit calls of "
-             "add_parameter_constraint stack them (cost, ndf and results differ)")
+        for callee, arg in (("add_parameter_constraint", "constraints"),):
+            loops = [l for l in ast.walk(fw.node) if isinstance(l, ast.For) and any(
+                isinstance(c, ast.Call) and isinstance(c.func, ast.Attribute) and c.func.attr == callee for st in l.body for c in ast.walk(st))]
+            if len(loops) != 1:
+                raise AnalysisError("_fit_wrapper_generic: loop forwarding %s not found" % arg)
+            src_kind = iter_source(loops[0])
+            if src_kind is None:
+                raise AnalysisError("_fit_wrapper_generic: what the %s loop iterates over is not understood (%s)" % (arg, ast.unparse(loops[0].iter)))
+            R.ob("S-order", "_fit_wrapper_generic:every constraint forwarded", src_kind == "sequence", (fw.file, loops[0].lineno),
+                 "the wrapper runs over a mapping keyed by parameter name: of several constraints on the same parameter only the last reaches the fit, while explicit calls of "
+                 "add_parameter_constraint stack them (cost, ndf and results differ)")
 
     # ---- percent shorthand
-    pe = p.resolve_name(p.module("kafe2.fit.representation.error.common_error_tools"), "process_error_sources")
-    pen = eng.cnode(pe)
-    src = eng.csrc(pe)
-    # the two arrays: `_rel[_i] = <float(_val[:-1])>` under the '%' test, `_abs[_i] = _val` otherwise (placeholders: whatever the locals are called)
-    fill_ok = src.all_like("for _i, _val in enumerate(_err):", "if isinstance(_val, str) and _val.endswith('%'):", "_abs[_i] = _val") \
-        and (src.like("_rel[_i] = float(_val[:-1])") or src.all_like("_pct = float(_val[:-1])", "_rel[_i] = _pct"))
-    rel_name, abs_name = src._binding.get("_rel"), src._binding.get("_abs")
-    from .formulas import canon_cond_text
-    cover = {("rel", True): False, ("rel", False): False, ("abs", True): False, ("abs", False): False}   # (kind, axis is None)
-    forms_ok = True
-    for c in ast.walk(pen):
-        if isinstance(c, ast.Call) and isinstance(c.func, ast.Name) and c.func.id == "add_error_to_container" and c.args and common.const_str(c.args[0]) == "simple":
-            kws = {k.arg: k.value for k in c.keywords}
-            rel = kws.get("relative")
-            if not isinstance(rel, ast.Constant) or "err_val" not in kws:
-                continue
-            form = Normalizer({}).norm(kws["err_val"]).canon()
-            kind = "rel" if rel.value is True else "abs"
-            forms_ok = forms_ok and (form == norm_spec("%s / 100" % rel_name).canon() if kind == "rel" else form == abs_name)
-            lits = canon_cond_text(common.guard_conditions(pen, c))
-            axis_kw = "axis" in kws
-            star = [k.value for k in c.keywords if k.arg is None]
-            if "(_axis is None)" in lits and not axis_kw:
-                cover[(kind, True)] = True
-            elif "not (_axis is None)" in lits and common.src_of(kws.get("axis")) == "_axis" if axis_kw else False:
-                cover[(kind, False)] = True
-            elif len(star) == 1 and isinstance(star[0], ast.IfExp):
-                # one call for both variants: **(dict() if _axis is None else dict(axis=_axis))
-                t = " ".join(ast.unparse(star[0]).split())
-                if t in ("dict() if _axis is None else dict(axis=_axis)", "{} if _axis is None else {'axis': _axis}", "{} if _axis is None else dict(axis=_axis)"):
-                    cover[(kind, True)] = cover[(kind, False)] = True
-    R.ob("S-pct", "percent -> relative", fill_ok and forms_ok and cover[("rel", True)] and cover[("rel", False)], (pe.file, pe.lineno),
-         "a percent string must become the relative uncertainty percent/100 (on every axis variant)")
-    R.ob("S-pct", "plain -> absolute", fill_ok and forms_ok and cover[("abs", True)] and cover[("abs", False)], (pe.file, pe.lineno), "plain numbers in a shorthand list must become absolute uncertainties (on every axis variant)")
+    with R.guard("percent shorthand"):
+        pe = p.resolve_name(p.module("kafe2.fit.representation.error.common_error_tools"), "process_error_sources")
+        pen = eng.cnode(pe)
+        src = eng.csrc(pe)
+        # the two arrays: `_rel[_i] = <float(_val[:-1])>` under the '%' test, `_abs[_i] = _val` otherwise (placeholders: whatever the locals are called)
+        fill_ok = src.all_like("for _i, _val in enumerate(_err):", "if isinstance(_val, str) and _val.endswith('%'):", "_abs[_i] = _val") \
+            and (src.like("_rel[_i] = float(_val[:-1])") or src.all_like("_pct = float(_val[:-1])", "_rel[_i] = _pct"))
+        rel_name, abs_name = src._binding.get("_rel"), src._binding.get("_abs")
+        from .formulas import canon_cond_text
+        cover = {("rel", True): False, ("rel", False): False, ("abs", True): False, ("abs", False): False}   # (kind, axis is None)
+        forms_ok = True
+        for c in ast.walk(pen):
+            if isinstance(c, ast.Call) and isinstance(c.func, ast.Name) and c.func.id == "add_error_to_container" and c.args and common.const_str(c.args[0]) == "simple":
+                kws = {k.arg: k.value for k in c.keywords}
+                rel = kws.get("relative")
+                if not isinstance(rel, ast.Constant) or "err_val" not in kws:
+                    continue
+                form = Normalizer({}).norm(kws["err_val"]).canon()
+                kind = "rel" if rel.value is True else "abs"
+                forms_ok = forms_ok and (form == norm_spec("%s / 100" % rel_name).canon() if kind == "rel" else form == abs_name)
+                lits = canon_cond_text(common.guard_conditions(pen, c))
+                axis_kw = "axis" in kws
+                star = [k.value for k in c.keywords if k.arg is None]
+                if "(_axis is None)" in lits and not axis_kw:
+                    cover[(kind, True)] = True
+                elif "not (_axis is None)" in lits and common.src_of(kws.get("axis")) == "_axis" if axis_kw else False:
+                    cover[(kind, False)] = True
+                elif len(star) == 1 and isinstance(star[0], ast.IfExp):
+                    # one call for both variants: **(dict() if _axis is None else dict(axis=_axis))
+                    t = " ".join(ast.unparse(star[0]).split())
+                    if t in ("dict() if _axis is None else dict(axis=_axis)", "{} if _axis is None else {'axis': _axis}", "{} if _axis is None else dict(axis=_axis)"):
+                        cover[(kind, True)] = cover[(kind, False)] = True
+        R.ob("S-pct", "percent -> relative", fill_ok and forms_ok and cover[("rel", True)] and cover[("rel", False)], (pe.file, pe.lineno),
+             "a percent string must become the relative uncertainty percent/100 (on every axis variant)")
+        R.ob("S-pct", "plain -> absolute", fill_ok and forms_ok and cover[("abs", True)] and cover[("abs", False)], (pe.file, pe.lineno), "plain numbers in a shorthand list must become absolute uncertainties (on every axis variant)")
